@@ -5,6 +5,7 @@ import (
 	"fmt"
 	"strings"
 	"sync"
+	"time"
 
 	tpl "code.gopub.tech/tpl"
 	"code.gopub.tech/tpl/html"
@@ -119,6 +120,63 @@ func raceC15(seed uint64, rounds int) string {
 					if fails <= 3 {
 						fmt.Printf("FAIL C15 round %d goroutine %d job %d template %s: concurrent %s, alone %s\n", round, g, j, jb.name, results[g][j].line(), want.line())
 					}
+				}
+			}
+		}
+	}
+	// deep inclusion chains held open by all goroutines at the same time: the per-execution state (inclusion depth,
+	// condition tables) must not be shared between executions in flight
+	for _, sc := range [][2]int{{2, 100}, {8, 30}, {16, 12}, {64, 5}} {
+		G, D := sc[0], sc[1]
+		var sb strings.Builder
+		sb.WriteString(`<div :insert="d1"></div>`)
+		for k := 1; k <= D; k++ {
+			if k < D {
+				fmt.Fprintf(&sb, `<template :define="d%d"><i :if="${c}" :insert="d%d"></i><i :else>no</i></template>`, k, k+1)
+			} else {
+				fmt.Fprintf(&sb, `<template :define="d%d"><b :text="${park()}"></b></template>`, k)
+			}
+		}
+		cfg := tmplCfg{ap: ":", tp: "t:", global: map[string]any{}}
+		m, le := newManager(cfg, [][2]string{{"deep.html", sb.String()}})
+		if le != "" {
+			return "FAIL C15 deep-inclusion scenario does not load: " + le
+		}
+		var mu sync.Mutex
+		arrived := 0
+		all := make(chan struct{})
+		park := func() string {
+			mu.Lock()
+			arrived++
+			if arrived == G {
+				close(all)
+			}
+			mu.Unlock()
+			select {
+			case <-all:
+			case <-time.After(5 * time.Second):
+			}
+			return "p"
+		}
+		t0, _ := m.GetTemplate("deep.html")
+		want := execOne(t0, tmplRun{data: map[string]any{"c": true, "park": func() string { return "p" }}, budget: -1})
+		res := make([]runResult, G)
+		var wg sync.WaitGroup
+		for g := 0; g < G; g++ {
+			wg.Add(1)
+			go func(g int) {
+				defer wg.Done()
+				t, _ := m.GetTemplate("deep.html")
+				res[g] = execOne(t, tmplRun{data: map[string]any{"c": true, "park": park}, budget: -1})
+			}(g)
+		}
+		wg.Wait()
+		for g := 0; g < G; g++ {
+			execs++
+			if res[g].line() != want.line() {
+				fails++
+				if fails <= 3 {
+					fmt.Printf("FAIL C15 %d goroutines each %d inclusions deep at the same time: goroutine %d gives %.200s, alone %.200s\n", G, D, g, res[g].line(), want.line())
 				}
 			}
 		}
